@@ -719,3 +719,38 @@ Proof.
     + repeat constructor.
   - vm_compute. repeat split.
 Qed.
+
+(* ---------------------------------------------------------------------------------------------------------
+   14. The request string is also the buffer the caller gets the answer in.  messenger::transmit receives the answer body into a
+       temporary vector and assigns it to that string only when the body is complete (NetDefs.body_failure_leaves), so: under ANY
+       single failure point of the first attempt - while the request goes out, anywhere in the answer header, anywhere in the
+       answer BODY (all schedules = all points) - the memory of the request string is unchanged and the retry re-sends exactly the
+       original request, header AND payload.  (A transmit that read the body straight into the caller's string would, after a
+       failure inside the body, retry with the first key_len bytes of the half-received value as the key: fetch(A) would ask
+       for - and with an L1 keep - the value of another key.  Oracle key fetch-returns-other-keys-value.) *)
+Theorem retry_after_any_single_failure_resends_header_and_payload : forall ws rs h data pad now c hb dm c',
+  hdr_ok h -> h_size h = lenN data ->
+  (forall rh rp c1, srv_handle now h data c = (rh, rp, c1) -> hdr_ok rh) ->
+  attempt ws rs (hdr_bytes h) (data ++ pad) now c = (AFail hb dm, c') ->
+  dm = data ++ pad /\ second_request h hb dm = Some (h, data).
+Proof. exact retry_after_any_failure_resends_the_request. Qed.
+Print Assumptions retry_after_any_single_failure_resends_header_and_payload.
+(* non-vacuity: key A = [65], its value begins with key B = [66]; the connection fails at every point of the 45-byte answer to
+   fetch(A) in turn (fail_at j, j = 0..44: 40 header bytes, 3 value bytes, 2 bytes of the trigger region): the first attempt fails, the request
+   string still holds A, and transmit returns the genuine answer (value 66,45,65) every time *)
+Example body_failure_nonvacuous :
+  let rq := enc_fetch [65] 0 true false in
+  let c := snd (srv_handle 1000 (fst (enc_store [66] [98] [] 2000)) (snd (enc_store [66] [98] [] 2000))
+            (snd (srv_handle 1000 (fst (enc_store [65] [66; 45; 65] [] 2000)) (snd (enc_store [65] [66; 45; 65] [] 2000)) c_empty))) in
+  let genuine := srv_handle 1000 (fst rq) (snd rq) c in
+  snd (fst genuine) = [66; 45; 65; 65; 0] /\ lenN (hdr_bytes (fst (fst genuine)) ++ snd (fst genuine)) = 45 /\
+  forallb (fun j =>
+    match attempt [] (fail_at (N.of_nat j)) (hdr_bytes (fst rq)) (snd rq ++ [9; 9]) 1000 c with
+    | (AFail _ dm, _) => beq dm (snd rq ++ [9; 9])
+    | _ => false
+    end &&
+    match transmit [] (fail_at (N.of_nat j)) true [] [] (fst rq) (snd rq ++ [9; 9]) 1000 c with
+    | (TxReply _ p, _) => beq p [66; 45; 65; 65; 0]
+    | _ => false
+    end) (seq 0 45) = true.
+Proof. vm_compute. repeat split. Qed.
